@@ -1,6 +1,7 @@
 package props
 
 import (
+	"bytes"
 	"encoding/hex"
 	"errors"
 	"fmt"
@@ -95,6 +96,10 @@ func c01values(r *rand.Rand, idx int) []c01value {
 	add("float", 1.5, "1.5")
 	x = s()
 	add("interface-holding-string", []interface{}{x}, "["+x+"]")
+	x = s()
+	add("*bytes.Buffer", bytes.NewBufferString(x), x) // a Stringer that is an io.WriterTo as well
+	x = s()
+	add("*strings.Builder", c01builder(x), x)
 	if idx%10 == 0 {
 		l := c01long(r)
 		add("long-string", l, l)
@@ -102,6 +107,12 @@ func c01values(r *rand.Rand, idx int) []c01value {
 		add("long-[]byte", []byte(l2), l2)
 	}
 	return vs
+}
+
+func c01builder(s string) *strings.Builder {
+	var b strings.Builder
+	b.WriteString(s)
+	return &b
 }
 
 func c01hexTag(open, close byte) func(string) string {
@@ -146,6 +157,16 @@ func c01run(c *fw.Ctx, idx int) {
 		}
 		opaques = append(opaques, prog.Opaque{Src: v.name, Val: prog.Str(v.printed)})
 		kindOf[v.name] = v.kind
+	}
+	// values written in the template itself: a string literal rendered by an action is a value like any other
+	for i := 0; i < 2; i++ {
+		x := "S" + c01str(r, 3+r.Intn(12)) + "E"
+		src := fmt.Sprintf("%q", x)
+		if i == 1 && !strings.ContainsAny(x, "`\x00") {
+			src = "`" + x + "`"
+		}
+		opaques = append(opaques, prog.Opaque{Src: src, Val: prog.Str(x)})
+		kindOf[src] = "string-literal"
 	}
 	userw := jet.SafeWriter(func(w io.Writer, b []byte) { w.Write([]byte(c01hexTag(3, 4)(string(b)))) })
 	extra["userw"] = userw
